@@ -599,7 +599,7 @@ fn normalize(root: &[String], segs: &[&str]) -> Option<Vec<String>> {
 
 pub fn c07(ctx: Arc<Ctx>) {
 	ctx.rule(
-		"real `versatiles serve` binary with a folder root and the equivalent tar root, mounted at / and under a URL prefix, tar roots with symbolic/hard link members naming outside files (one archive above 32 MiB), and a folder root spelled through a symbolic link followed by '..' (relative and absolute, with and without prefix); canary files next to the root, above it and at an absolute path; \
+		"real `versatiles serve` binary with a folder root and the equivalent tar root, mounted at / and under a URL prefix, tar roots with symbolic/hard link members naming outside files (one archive above 32 MiB), a folder root spelled through a symbolic link followed by '..' (relative and absolute, with and without prefix), a folder root whose name contains '#', and relative roots next to a pipeline-file tile source that lives in another directory; canary files next to the root, above it and at an absolute path; \
 		 requests: every sequence of <= 4 segments over {a.txt, d, e.txt, canary.txt, ., .., empty, %2e%2e, %2E., ..%2f, %5c.., <root name>, <sibling name>, secret.txt and backup (which exist outside the root only as .gz/.br)} with and without trailing slash, plus absolute-path smuggling targets; raw request targets (no client-side normalisation). \
 		 oracle: a 200 body (decoded) equals the file inside the root that the path resolves to and never contains a canary; plain paths to existing files are served. non-trivial = request targets containing a dot, empty or encoded segment",
 	);
@@ -667,6 +667,28 @@ pub fn c07(ctx: Arc<Ctx>) {
 	}
 	std::os::unix::fs::symlink("../releases/42", app.join("current")).unwrap();
 	std::fs::write(base.join("releases/canary.txt"), "CANARY-RELEASES").unwrap();
+	// a root whose name contains '#' (a form only tile-source arguments give a meaning to), next to a directory
+	// named like the part before the '#'
+	let hash_root = base.join("wwx#pre");
+	std::fs::create_dir_all(hash_root.join("d")).unwrap();
+	std::fs::create_dir_all(base.join("wwx/d")).unwrap();
+	for (p, c) in &files {
+		std::fs::write(hash_root.join(p), c).unwrap();
+	}
+	for (p, c) in [("a.txt", "CANARY-BEFORE-HASH-A"), ("canary.txt", "CANARY-BEFORE-HASH"), ("d/e.txt", "CANARY-BEFORE-HASH-E")] {
+		std::fs::write(base.join("wwx").join(p), c).unwrap();
+	}
+	let hash_comps: Vec<String> = hash_root.canonicalize().unwrap().components().filter_map(|c| match c {
+		std::path::Component::Normal(s) => Some(s.to_string_lossy().to_string()),
+		_ => None,
+	}).collect();
+	// a pipeline file as tile source that lives in another directory, which also has a 'www' of its own
+	let maps = base.join("maps");
+	std::fs::create_dir_all(maps.join("www/d")).unwrap();
+	for (p, c) in [("a.txt", "CANARY-VPL-DIR-A"), ("canary.txt", "CANARY-VPL-DIR"), ("d/e.txt", "CANARY-VPL-DIR-E"), ("d/index.html", "CANARY-VPL-DIR-INDEX")] {
+		std::fs::write(maps.join("www").join(p), c).unwrap();
+	}
+	std::fs::write(maps.join("www.tar"), codec::tar_write(&[("a.txt".to_string(), b"CANARY-VPL-DIR-TAR".to_vec())], codec::TarLayout { dot_prefix: false, dir_entries: false, gnu: false, reversed: false, meta_last: false })).unwrap();
 	// a tile source is required by the CLI
 	let rt = crate::memsource::runtime(1);
 	let mut tiles = TileMap::new();
@@ -696,6 +718,8 @@ pub fn c07(ctx: Arc<Ctx>) {
 		frontier = next;
 	}
 	let tabs = base.join(&tfile).to_string_lossy().to_string();
+	std::fs::copy(base.join(&tfile), maps.join("t.versatiles")).unwrap();
+	std::fs::write(maps.join("osm.vpl"), "from_container filename=\"t.versatiles\"").unwrap();
 	let shared_comps: Vec<String> = shared_real.canonicalize().unwrap().components().filter_map(|c| match c {
 		std::path::Component::Normal(s) => Some(s.to_string_lossy().to_string()),
 		_ => None,
@@ -712,6 +736,10 @@ pub fn c07(ctx: Arc<Ctx>) {
 		("folder spelled through a symbolic link and '..'", vec![tabs.clone(), "--static".into(), "current/../shared".into()], "", false, app.clone(), shared_comps.clone()),
 		("folder spelled through a symbolic link and '..' under a prefix", vec![tabs.clone(), "--static".into(), format!("[/assets]{}/current/../shared", app.to_string_lossy())], "/assets", false, base.clone(), shared_comps.clone()),
 	];
+	let mut mounts = mounts;
+	mounts.push(("folder whose name contains '#'", vec![tfile.clone(), "--static".into(), "wwx#pre".into()], "", false, base.clone(), hash_comps.clone()));
+	mounts.push(("folder and tar given by relative names, tile source = a pipeline file in another directory", vec!["maps/osm.vpl".into(), "--static".into(), "www".into(), "--static".into(), "[/tarassets]www.tar".into()], "", false, base.clone(), root_comps.clone()));
+	mounts.push(("folder and tar given by relative names, tile source = a pipeline file in another directory", vec![], "/tarassets", true, base.clone(), root_comps.clone()));
 	let link_names = ["link.txt", "rel.txt", "hard.txt", "d/up.txt"];
 	let mut server: Option<Server> = None;
 	for (mi, (mname, args, prefix, is_tar, cwd, root_comps)) in mounts.iter().enumerate() {
